@@ -215,7 +215,9 @@ func ExplainGpos(fontInfo *sfnt.Font) []string {
 
 			case *gtab.Gpos2_2:
 				checkType(2)
-				ee.w.WriteString("\n\t")
+				if i == 0 {
+					ee.w.WriteString("\n\t")
+				}
 				ee.w.WriteRune('/')
 				ee.writeGlyphList(l.Cov.Glyphs())
 				ee.w.WriteRune('/')
@@ -271,8 +273,13 @@ func ExplainGpos(fontInfo *sfnt.Font) []string {
 			case *gtab.Gpos4_1:
 				checkType(4)
 				markGlyphs := l.MarkCov.Glyphs()
+				lineStarted := i > 0 // the subtable separator already started a new line
 				for i, gid := range markGlyphs {
-					ee.w.WriteString("\n\tmark ")
+					if !lineStarted {
+						ee.w.WriteString("\n\t")
+					}
+					lineStarted = false
+					ee.w.WriteString("mark ")
 					ee.writeGlyph(gid)
 					ee.w.WriteRune(':')
 					rec := l.MarkArray[i]
@@ -282,7 +289,11 @@ func ExplainGpos(fontInfo *sfnt.Font) []string {
 
 				baseGlyphs := l.BaseCov.Glyphs()
 				for i, gid := range baseGlyphs {
-					ee.w.WriteString("\n\tbase ")
+					if !lineStarted {
+						ee.w.WriteString("\n\t")
+					}
+					lineStarted = false
+					ee.w.WriteString("base ")
 					ee.writeGlyph(gid)
 					ee.w.WriteRune(':')
 					anchors := l.BaseArray[i]
